@@ -249,8 +249,9 @@ def rand_obj(rng, depth=0):
 # ------------------------------------------------------------------------------------------
 class Phys:
     """one `N 0 obj ... endobj` in the file.  kind:
-       ('obj', o) | ('stm', extra_dict_entries, data, length) | ('objstm', index, broken) | ('garbage',)
+       ('obj', o) | ('stm', extra_dict_entries, data, length) | ('objstm', index, broken [, length]) | ('garbage',)
        length: ('direct', n) | ('ref', num, resolved: bool)   -- resolved: num is a Normal entry holding len(data)
+               | ('wrong', num, value)   -- num is a Normal entry holding the integer value != len(data): see parse_wrong_length
        index: list of (num, obj | None)   -- None: offset out of bounds"""
     def __init__(self, num, kind, gen=0):
         self.num = num
@@ -278,6 +279,25 @@ def objstm_data(index):
         nums.append(b'%d %d' % (num, off if off is not None else len(body) + 50))
     head = b' '.join(nums) + b' '
     return head + body, len(head)
+
+
+def parse_wrong_length(data, value):
+    """what parser::stream makes of `data \\n endstream \\n endobj` when the Length it resolved while parsing is `value`:
+    None = the object fails (negative: nom Failure), False = a Dictionary (the bytes after `value` bytes are not [eol] endstream, or the
+    file ends before), bytes = a Stream with that content (a wrong length that still lands in front of an endstream)"""
+    if value < 0:
+        return None
+    after = data + b'\nendstream\nendobj\n'
+    if value > len(after) - len(b'endstream\nendobj\n'):
+        # inside `endstream`, in front of `endobj`, or far beyond the end of the file (nothing in between is generated)
+        assert value <= len(after) - 7 or value >= 10 ** 8
+        return False
+    rest = after[value:]
+    for e in (b'\r\n', b'\n', b'\r'):
+        if rest.startswith(e):
+            rest = rest[len(e):]
+            break
+    return after[:value] if rest.startswith(b'endstream') else False
 
 
 def crypt_strings(o, f):
@@ -315,7 +335,7 @@ class Enc:
         return crypt_strings(o, lambda b: self.data(p, b)), crypt_strings(o, lambda b: b)
 
 
-def layout(rng, phys, xref, root, mark=True, compressed=None, enc=None):
+def layout(rng, phys, xref, root, mark=True, compressed=None, enc=None, model_skipped=False):
     """phys: list of Phys in physical order; xref: dict key -> Phys | 'raw' (an offset into garbage).
     compressed: None = classic xref table; dict number -> container key = cross-reference stream with those
     Compressed entries.  enc: None or an Enc: strings and stream bodies are written encrypted (strings in hexadecimal form), the
@@ -354,7 +374,7 @@ def layout(rng, phys, xref, root, mark=True, compressed=None, enc=None):
                 entries = [(b'Type', ('n', b'ObjStm')), (b'N', ('i', len(k[1])))]
                 if not k[2]:
                     entries.append((b'First', ('i', first)))
-                length = ('direct', len(data))
+                length = k[3] if len(k) > 3 else ('direct', len(data))
                 if k[2]:
                     members = 'none'
                 else:
@@ -374,12 +394,25 @@ def layout(rng, phys, xref, root, mark=True, compressed=None, enc=None):
             out += data + b'\nendstream\nendobj\n'
             if length[0] == 'direct' and length[1] < 0:
                 p.parsed = 'fail'
+            elif length[0] == 'wrong':
+                got = parse_wrong_length(data, length[2])
+                if got is None:
+                    p.parsed = 'fail'
+                elif got is False:
+                    # `take(length)` is not followed by endstream: the parser's alt falls back to the dictionary alone
+                    p.parsed = L('obj', oid, sx(('d', entries)))
+                else:
+                    assert k[0] == 'stm'
+                    entries[pos] = (b'Length', ('i', len(got)))
+                    p.parsed = L('stm', oid, sx(('d', entries)), xb(got), 'none', members)
             elif length[0] == 'direct' or length[2]:
                 n = length[1] if length[0] == 'direct' else len(data)
                 assert n == len(data)
                 entries[pos] = (b'Length', ('i', n))
                 p.parsed = L('stm', oid, sx(('d', entries)), xb(data), 'none', members)
             else:
+                if k[0] == 'objstm':
+                    members = L('m')       # ObjectStream::new on an empty content: Ok, no members (First is not looked at)
                 p.parsed = L('stm', oid, sx(('d', entries)), xb(b''), str(start), members)
         else:
             raise ValueError(k)
@@ -425,6 +458,9 @@ def layout(rng, phys, xref, root, mark=True, compressed=None, enc=None):
         # a number with a Normal entry has no Compressed entry (one entry per number in the table)
         meta.append(L('xc', *[L(str(n), str(c)) for n, c in sorted(compressed.items()) if n not in xref]))
     parts = [xb(bytes(out)), L('meta', *meta), L('entries', *entries)]
+    if model_skipped:
+        # the runner answers (model-skipped): the case is decided on the implementation alone (see SPEC['compare'])
+        parts.append(L('model', 'skipped'))
     if enc:
         parts.append(L('crypt', '1' if enc.opens else '0', L('dec', *enc.dec), L('osm', *enc.osm)))
     case = L('case', *parts)
@@ -823,6 +859,183 @@ def gen_encrypted(rng, kind, big=0, variant=None):
     return layout(rng, phys, xref, 1, mark=rng.random() < 0.8, compressed=compressed, enc=enc)
 
 
+def gen_indirect_lengths(rng, n, nos, mode=None):
+    """n ordinary streams and nos OBJECT STREAMS whose Length is `k 0 R`, k a Normal entry holding the integer: the reader follows
+    the reference while it parses the object (Reader::get_object, with a cycle-detection set made for that ONE object), so every
+    one of them is complete -- and every object stream expanded -- when its task returns, wherever the task runs.  Some length
+    objects hold a WRONG value (too short, too long, zero, beyond the file: `take(length)` is not followed by endstream and the
+    object is the Dictionary alone; one byte too long: a Stream with the end-of-line in it; negative: the object fails), some are
+    shared by several streams (right for one, wrong for another), some lengths are found only after the parallel phase (a reference
+    to a reference; a number that lives in an object stream; dangling).  What a task returns must not depend on which tasks ran
+    before it in the same rayon job: the document is the same for every pool size.
+    mode: where the length objects are in the cross-reference order -- 'last', 'first', 'pair' (right after their stream), 'shuffle'."""
+    mode = mode or rng.choice(['last', 'last', 'first', 'pair', 'shuffle'])
+    DATA = [b'stream data 1', b'BT /F1 12 Tf (indirect) Tj ET', b'x', b'0123456789' * 3, b'q 1 0 0 1 5 5 cm Q']
+    items = []           # ('stm'|'objstm', spec..., lenspec) in logical order; the numbers are given afterwards
+    ndam = max(2, n // 8)
+    dam_at = set(rng.sample(range(n), min(n, ndam)))
+    if n >= 8:
+        dam_at.add(rng.randrange(n - 3, n))       # one near the end: behind many other lookups of its job
+    # places of the object streams among the ordinary ones: spread, most of them late
+    os_at = sorted(rng.randrange(n // 2 if rng.random() < 0.7 else 0, n + 1) for _ in range(nos))
+    os_dam = set(rng.sample(range(nos), rng.choice([0, 1, 1, 2]) if nos >= 3 else 0))
+    os_unres = set(j for j in range(nos) if j not in os_dam and rng.random() < 0.08)
+    seq = []
+    j = 0
+    for i in range(n + 1):
+        while j < nos and os_at[j] == i:
+            seq.append(('objstm', j))
+            j += 1
+        if i < n:
+            seq.append(('stm', i))
+    # numbers: 1 = catalog; then per mode
+    nlen_shared = {}      # data length -> number of a length object that several streams share
+    phys = []
+    xref = {}
+    cat = Phys(1, ('obj', ('d', [(b'Type', ('n', b'Catalog'))])))
+    phys.append(cat)
+    xref[1] = cat
+    count = len(seq)
+    base_members = 3 * count + 40           # member numbers live above every entry number
+    slots = {}                               # item index -> (own key, key of its length object)
+    if mode == 'last':
+        for t in range(count):
+            slots[t] = (2 + t, 2 + count + t)
+    elif mode == 'first':
+        for t in range(count):
+            slots[t] = (2 + count + t, 2 + t)
+    elif mode == 'pair':
+        for t in range(count):
+            slots[t] = (2 + 2 * t, 3 + 2 * t)
+    else:
+        ks = list(range(2, 2 + 2 * count))
+        rng.shuffle(ks)
+        own = sorted(ks[:count]) if rng.random() < 0.5 else ks[:count]
+        for t in range(count):
+            slots[t] = (own[t], ks[count + t])
+    spare = 2 + 2 * count                    # further numbers: second hop of a chain, plain objects
+    extra_keys = iter(range(spare, spare + count + 20))
+    via_num = base_members - 2               # a member of the first object stream: a length known only after the merge
+    holders = {}
+    zero_budget = rng.randint(0, 4)          # how many streams wait for the zero-length pass (<= 4: every order is tried)
+    for t, (what, idx) in enumerate(seq):
+        key, lkey = slots[t]
+        if what == 'stm':
+            data = rng.choice(DATA)
+            extra = [(b'Kind', ('n', b'Content'))] if rng.random() < 0.3 else []
+            r = rng.random()
+            if r > 0.97 and zero_budget > 0:
+                zero_budget -= 1
+                data = b''           # Length 0, resolved: content empty, no start position, on the zero-length list all the same
+            if idx in dam_at:
+                wrong = rng.choice([len(data) - 1, len(data) - 3, len(data) + 2, len(data) + 3, len(data) + 10, 0, 10 ** 8,
+                                    len(data) + 1, -1] if len(data) >= 3 else [len(data) + 2, len(data) + 5, 10 ** 8, len(data) + 1])
+                if wrong == len(data):
+                    wrong = len(data) + 2
+                if wrong < 0 and rng.random() < 0.5:
+                    wrong = 10 ** 8          # a failing object now and then only
+                length = ('wrong', lkey, wrong)
+                lobj = Phys(lkey, ('obj', ('i', wrong)))
+            elif r < 0.06 and zero_budget > 0 and data:
+                # Length -> a reference -> the integer: not an integer while parsing, followed by the zero-length pass
+                zero_budget -= 1
+                hop = next(extra_keys)
+                length = ('ref', lkey, False)
+                lobj = Phys(lkey, ('obj', ('ref', hop, 0)))
+                h = Phys(hop, ('obj', ('i', rng.choice([len(data), len(data), 4, 10 ** 8, -2]))))
+                phys.append(h)
+                xref[hop] = h
+            elif r < 0.10 and zero_budget > 0 and data and nos:
+                zero_budget -= 1
+                length = ('ref', via_num, False)      # lives in an object stream
+                lobj = None
+            elif r < 0.12 and zero_budget > 0 and data:
+                zero_budget -= 1
+                length = ('ref', base_members - 1, False)     # dangling
+                lobj = None
+            elif r < 0.2:
+                length = ('direct', len(data))
+                lobj = Phys(lkey, ('obj', rand_obj(rng)))
+            elif r < 0.45 and len(data) in nlen_shared:
+                length = ('ref', nlen_shared[len(data)], True)
+                lobj = Phys(lkey, ('obj', rand_obj(rng)))
+            elif r < 0.5 and nlen_shared and idx not in dam_at:
+                # the length object of ANOTHER stream, right for that one and wrong for this one
+                other, num = rng.choice(sorted(nlen_shared.items()))
+                if other != len(data) and other <= len(data) + 10 and parse_wrong_length(data, other) is False:
+                    length = ('wrong', num, other)
+                else:
+                    length = ('ref', num, True) if other == len(data) else ('direct', len(data))
+                lobj = Phys(lkey, ('obj', rand_obj(rng)))
+            else:
+                length = ('ref', lkey, True)
+                lobj = Phys(lkey, ('obj', ('i', len(data))))
+                nlen_shared.setdefault(len(data), lkey)
+            p = Phys(key, ('stm', extra, data, length))
+        else:
+            ms = [(base_members + 3 * idx + q, rand_obj(rng)) for q in range(rng.randint(2, 3))]
+            if idx == 0:
+                ms.append((via_num, ('i', rng.choice([13, 4, 1]))))
+            if rng.random() < 0.2:
+                ms.append((base_members + 3 * rng.randrange(nos), ('s', b'also in object stream %d' % idx)))
+            for num, _ in ms:
+                holders.setdefault(num, []).append(key)
+            data, _ = objstm_data(ms)
+            if idx in os_dam:
+                wrong = rng.choice([len(data) - 1, len(data) + 2, 0, 10 ** 8, -1, len(data) - 5])
+                length = ('wrong', lkey, wrong)
+                lobj = Phys(lkey, ('obj', ('i', wrong)))
+            elif idx in os_unres:
+                length = ('ref', via_num if idx else base_members - 1, False)
+                lobj = Phys(lkey, ('obj', rand_obj(rng)))
+            elif rng.random() < 0.15:
+                length = ('direct', len(data))
+                lobj = Phys(lkey, ('obj', rand_obj(rng)))
+            else:
+                length = ('ref', lkey, True)
+                lobj = Phys(lkey, ('obj', ('i', len(data))))
+            p = Phys(key, ('objstm', ms, False, length))
+        phys.append(p)
+        xref[key] = p
+        if lobj is not None:
+            phys.append(lobj)
+            xref[lkey] = lobj
+    if rng.random() < 0.6:
+        rng.shuffle(phys)
+    compressed = None
+    if nos and rng.random() < 0.5:
+        compressed = {}
+        for num, hs in holders.items():
+            r = rng.random()
+            if r < 0.8:
+                compressed[num] = rng.choice(hs)
+            elif r < 0.9:
+                compressed[num] = rng.choice(list(xref))
+        if not compressed:
+            compressed = {base_members + 7: 1}
+    return layout(rng, phys, xref, 1, mark=True, compressed=compressed)
+
+
+def gen_many_object_streams(rng, count, model_skipped):
+    """`count` tiny object streams of one member each (a second one in every 97th): more object streams than any limit a
+    reader might count them against while its workers run.  model_skipped: the model's list-based maps need half a minute for
+    such a file; the quick tier decides the case on the implementation alone (direct verdict: the loads under both forced block
+    orders, on every pool and by the sequential build are one document), the thorough tier also compares with the model"""
+    cat = Phys(1, ('obj', ('d', [(b'Type', ('n', b'Catalog'))])))
+    phys = [cat]
+    xref = {1: cat}
+    base = count + 100
+    for j in range(count):
+        key = 2 + j
+        ms = [(base + j, ('i', j))]
+        if j % 97 == 0:
+            ms.append((base + count + j, ('n', b'Second')))
+        p = Phys(key, ('objstm', ms, False))
+        phys.append(p)
+        xref[key] = p
+    return layout(rng, phys, xref, 1, mark=True, compressed=None, model_skipped=model_skipped)
+
+
 def gen_cases(rng, tier):
     quick = tier == 'quick'
     cases = []
@@ -855,7 +1068,35 @@ def gen_cases(rng, tier):
         for k in range(3 if quick else 24):
             _, case = gen_encrypted(rng, kind, rng.choice([1000, 1500]), (0, 1, 2)[k % 3])
             cases.append((case, {'kind': 'encrypted-%s-big' % kind, 'nontrivial': True}))
+    # many streams and object streams whose Length is an indirect object (drawn last: the cases above stay what they were)
+    sizes = [(6, 2), (8, 3), (12, 3), (20, 4), (40, 5), (12, 2), (30, 6), (16, 1), (9, 0)]
+    modes = ['last', 'first', 'pair', 'shuffle']
+    k = 0
+    for _ in range(1 if quick else 25):
+        for n, nos in sizes:
+            _, case = gen_indirect_lengths(rng, n, nos, modes[k % 4] if k % 3 else 'last')
+            k += 1
+            cases.append((case, {'kind': 'indirect-lengths', 'nontrivial': True}))
+    for n, nos in ((150, 8), (600, 24)) if quick else ((100, 7), (150, 8), (200, 12), (300, 9), (400, 16), (600, 24)) * 3:
+        _, case = gen_indirect_lengths(rng, n, nos, modes[k % 4] if k % 2 else 'last')
+        k += 1
+        cases.append((case, {'kind': 'indirect-lengths-many', 'nontrivial': True}))
+    # more object streams than a reader might be willing to expand
+    _, case = gen_many_object_streams(rng, MANY_OBJECT_STREAMS, model_skipped=quick)
+    cases.append((case, {'kind': 'object-streams-%d%s' % (MANY_OBJECT_STREAMS, '-model-skipped' if quick else ''), 'nontrivial': True}))
     return cases
+
+
+MANY_OBJECT_STREAMS = 4200
+MODEL_SKIPPED = '(model-skipped)'
+
+
+def compare(model_out, impl_out):
+    """textual equality; a case the generator marked (model skipped) has no model answer: it counts as decided by the direct
+    verdict alone (the runner prints MODEL_SKIPPED only for that mark, the implementation must still have produced a result)"""
+    if model_out == MODEL_SKIPPED:
+        return impl_out.startswith('(res ')
+    return model_out == impl_out
 
 
 SPEC = {
@@ -865,6 +1106,7 @@ SPEC = {
     'bin': 'c08',
     'hooks': True,
     'gen_cases': gen_cases,
+    'compare': compare,
     'impl_shards': 8,
     'rule': 'hand-written PDF files (classic xref table or a cross-reference stream whose Compressed entries name right, wrong '
             'and non-existent containers; objects in shuffled physical order) with 0..6 (thorough: ..8) '
@@ -887,7 +1129,16 @@ SPEC = {
             'holder / a non-holder / nowhere, two object streams with one object number and different generations, header numbers differing '
             'from the entry numbers, a non-empty user password (nothing decrypted), cut AES ciphertext (the load fails), a direct encryption '
             'dictionary, strings in plain objects and stream dictionaries, stream lengths direct / zero / resolvable / defined only inside '
-            'the encrypted object streams, and a container of 1000-1500 members that is first in the order of the objects map beside small ones',
+            'the encrypted object streams, and a container of 1000-1500 members that is first in the order of the objects map beside small ones; '
+            'INDIRECT LENGTHS: files of 6..40 (and of 100..600) streams plus 0..6 (7..24) object streams whose Length is `k 0 R`, k a Normal '
+            'entry holding the integer (resolved by the task itself while it parses), the length objects after / before / beside their streams '
+            'or shuffled in the cross-reference order, length objects shared by several streams (right for one, wrong for another), WRONG '
+            'values (too short, too long, zero, beyond the file: the object is the Dictionary alone; one too long: a Stream ending in the '
+            'end-of-line; negative: the object fails) on ordinary and on object streams, lengths found only by the zero-length pass (reference '
+            'to a reference, a member of an object stream, dangling), object streams whose Length is unresolved (no members): what a task '
+            'returns must not depend on the tasks that ran before it in the same rayon job; ONE file of 4200 one-member object streams (more '
+            'than a reader-side limit counted by racing workers would expand): quick tier decided on the implementation alone '
+            '(model-skipped, see notes), thorough tier also against the model',
     'extra_trusted': [
         'C08: rayon runs every task exactly once, `collect` keeps source order, and appends made while holding a '
         'std::sync::Mutex are atomic (the schedules of the model are exactly: any cut into jobs, any order of the '
@@ -920,6 +1171,10 @@ def run(ctx):
     if exe is None:
         print(log[-3000:])
         ctx.notes.append('sequential oracle build failed')
+    if ctx.tier == 'quick':
+        ctx.notes.append('model-skipped: 1 case (kind object-streams-%d-model-skipped: the file of %d object streams) is decided by the '
+                         'direct verdict on the implementation alone in the quick tier -- every forced order, every pool and the sequential '
+                         'build give one document --; the thorough tier also compares it with the model' % (MANY_OBJECT_STREAMS, MANY_OBJECT_STREAMS))
     return propcheck.standard_check(ctx, SPEC)
 
 
@@ -943,7 +1198,7 @@ def replay(ctx, r):
     if runner:
         mo = vlib.run_lines(runner, [case])[0]
         print('model:', mo)
-        bad = bad or mo != out
+        bad = bad or not compare(mo, out)
     return 1 if bad else 0
 
 
